@@ -282,7 +282,8 @@ fn gen_session(rng: &mut Rng, no_twins: bool, c06: bool) -> Session {
     if !c06 {
         if rng.pct(70) && !very_deep {
             let fail = rng.pct(40);
-            replicas.push(Replica { role: "environment-twin".into(), entropy: rng.u128(), steps: env_steps(rng, &docs, &in_order, fail, false), warmup: vec![] });
+            let role = "environment-twin";
+            replicas.push(Replica { role: role.into(), entropy: rng.u128(), steps: env_steps(rng, &docs, &in_order, fail, false), warmup: vec![] });
         }
     } else {
         let sweep = k <= 4 && rng.pct(6);
@@ -346,6 +347,15 @@ fn gen_session(rng: &mut Rng, no_twins: bool, c06: bool) -> Session {
                 rng.shuffle(&mut o);
             }
             replicas.push(Replica { role: "unreliable-channel".into(), entropy: rng.u128(), steps: env_steps(rng, &docs, &o, true, true), warmup: vec![] });
+        }
+    }
+    // veteran threads: every replica but the baseline may have worked on other inputs before
+    for r in replicas.iter_mut().skip(1) {
+        if rng.pct(25) && !very_deep {
+            super::add_warmup(rng, r, &docs);
+        }
+        if !r.role.starts_with("order-") {
+            super::decorate_role(rng, r);
         }
     }
     Session { alts, docs, replicas, opts: vec![RenderOpt::preset(false, false, ""), RenderOpt::preset(false, true, "")] }
@@ -459,6 +469,10 @@ fn prepare_with<'a>(s: &'a Session, ctr: &mut Ctr, need_twin_free: bool, sorted_
     if s.replicas.len() > 1 {
         bump(ctr, "fault.entropy_twin_sessions");
     }
+    if s.replicas.iter().any(|r| !r.warmup.is_empty()) {
+        bump(ctr, "fault.veteran_thread_replica");
+    }
+    super::count_decorations(s, ctr);
     Ok(Ok(Ctx { s, outs, trace, sim_steps, fp: fp.0, env: env.0, model_all, hard_faults }))
 }
 
